@@ -81,6 +81,8 @@ def main(argv=None):
         else:
             i += 1
     seed = int(os.environ.get("VERIF_SEED", "0") or 0)
+    if pid == "selfcheck":
+        return run_selfcheck()[0]
     if tier == "thorough":
         os.environ["PYVC_BOTH"] = "1"
     try:
@@ -102,6 +104,20 @@ def main(argv=None):
         traceback.print_exc()
         print(f"CHECKER-FAILURE property={pid} {type(e).__name__}: {e}")
         return 3
+
+
+def run_selfcheck():
+    """CPython differential of the executor (pyvc.selfcheck) in a child process whose VERIF_REPO is the selfcheck tree"""
+    import subprocess
+    env = dict(os.environ, VERIF_REPO=os.path.join(VERIF, "selfcheck", "repo"), PYTHONPATH=VERIF)
+    p = subprocess.run([sys.executable, "-m", "pyvc.selfcheck"], capture_output=True, text=True, env=env, cwd=VERIF, timeout=900)
+    sys.stdout.write("".join(l + "\n" for l in p.stdout.splitlines() if l.startswith(("SELFCHECK", "[selfcheck]", "CHECKER"))))
+    try:
+        with open(os.path.join(VERIF, "tmp", "selfcheck.json")) as f:
+            summary = json.load(f)
+    except Exception:
+        summary = {"error": (p.stderr or p.stdout)[-500:]}
+    return (0 if p.returncode == 0 else 3), summary
 
 
 def run_check(pid, mod, tier, seed):
@@ -404,6 +420,10 @@ def run_check(pid, mod, tier, seed):
         sec = [r.get("second") for o, r in zip(obligations, results) if r.get("backend") == "z3" and not o.expect_sat]
         coverage["second_solver"] = {"what": "thorough tier: every obligation z3 decided is decided again by cvc5 on the same SMT-LIB text; a contradiction is a checker failure",
                                      "agreed": sum(1 for x in sec if x in ("sat", "unsat")), "second_solver_undecided": sum(1 for x in sec if x not in ("sat", "unsat"))}
+    # ---- self-check of the executor against CPython on concrete points (every run; a mismatch is a checker failure)
+    sc_code, sc_summary = run_selfcheck()
+    coverage["executor_differential"] = {k: sc_summary.get(k) for k in ("programs", "concrete_points", "obligations", "proved_equal_to_cpython", "mismatches", "error") if k in sc_summary}
+    coverage["executor_differential"]["modelled_abstractly_but_consistent_with_cpython"] = len(sc_summary.get("modelled_abstractly_but_consistent_with_cpython", []))
     # ---- self-check of the regex translation against CPython's `re` on every pattern this run translated
     from . import regex2smt
     selfcheck_bad = []
@@ -433,6 +453,10 @@ def run_check(pid, mod, tier, seed):
         print(f"KNOWN-FINDING: property={pid} {kf.get('what', kf.get('id'))}")
     status = "held"
     code = 0
+    if sc_code != 0:
+        status = "checker-failure"
+        code = 3
+        print(f"CHECKER-FAILURE property={pid} the executor disagrees with CPython on the self-check programs (./check selfcheck)")
     if selfcheck_bad:
         status = "checker-failure"
         code = 3
